@@ -17,6 +17,8 @@ def sh(cmd, **kw):
 def copy_repo(dst):
     for d in ('src', 'include', 'tests'):
         shutil.copytree(os.path.join(REPO, d), os.path.join(dst, d))
+    if os.path.exists(os.path.join(REPO, 'CMakeLists.txt')):
+        shutil.copy(os.path.join(REPO, 'CMakeLists.txt'), dst)
 
 
 def build_demo(root, demo, out, extra):
